@@ -75,42 +75,11 @@ impl StyleSheetOutput {
         }
         self.prev_ser_type = next_ser_type;
         let output_start_pos = self.s.len();
-        token.to_css(&mut self.s).unwrap();
-        // The generic serializer keeps 6 significant digits, even of integers:
-        // write large integers (e.g. `z-index: 2147483647`) from their exact integer value.
-        let exact_int = match &token.token {
-            Token::Number {
-                has_sign,
-                int_value: Some(i),
-                ..
-            }
-            | Token::Percentage {
-                has_sign,
-                int_value: Some(i),
-                ..
-            }
-            | Token::Dimension {
-                has_sign,
-                int_value: Some(i),
-                ..
-            } if i.unsigned_abs() >= 1_000_000 => Some((*has_sign, *i)),
-            _ => None,
-        };
-        if let Some((has_sign, i)) = exact_int {
-            let digits_end = self.s[output_start_pos..]
-                .char_indices()
-                .find(|(index, c)| !(c.is_ascii_digit() || (*index == 0 && (*c == '+' || *c == '-'))))
-                .map(|(index, _)| output_start_pos + index)
-                .unwrap_or(self.s.len());
-            let exact = if has_sign && i >= 0 {
-                format!("+{}", i)
-            } else {
-                i.to_string()
-            };
-            self.s.replace_range(output_start_pos..digits_end, &exact);
-        }
+        write_token_exact(&token.token, &mut self.s);
         let name = src.map(|x| {
-            let s = x.to_css_string();
+            // (the name is the spelling of the source token: large integers exact, as in the output)
+            let mut s = String::new();
+            write_token_exact(&x, &mut s);
             self.source_map.add_name(&s)
         });
         self.source_map.add_raw(
@@ -144,5 +113,43 @@ impl StyleSheetOutput {
         } else {
             self.append_token(token, src);
         }
+    }
+}
+
+/// Serialize a token. The generic serializer keeps 6 significant digits, even of integers:
+/// large integers (e.g. `z-index: 2147483647`) are written from their exact integer value.
+fn write_token_exact(token: &Token, out: &mut String) {
+    let start = out.len();
+    token.to_css(out).unwrap();
+    let exact_int = match token {
+        Token::Number {
+            has_sign,
+            int_value: Some(i),
+            ..
+        }
+        | Token::Percentage {
+            has_sign,
+            int_value: Some(i),
+            ..
+        }
+        | Token::Dimension {
+            has_sign,
+            int_value: Some(i),
+            ..
+        } if i.unsigned_abs() >= 1_000_000 => Some((*has_sign, *i)),
+        _ => None,
+    };
+    if let Some((has_sign, i)) = exact_int {
+        let digits_end = out[start..]
+            .char_indices()
+            .find(|(index, c)| !(c.is_ascii_digit() || (*index == 0 && (*c == '+' || *c == '-'))))
+            .map(|(index, _)| start + index)
+            .unwrap_or(out.len());
+        let exact = if has_sign && i >= 0 {
+            format!("+{}", i)
+        } else {
+            i.to_string()
+        };
+        out.replace_range(start..digits_end, &exact);
     }
 }
